@@ -1049,6 +1049,124 @@ def rule_r11(prog, res) -> None:
     shared_rule(res, c09.rule_r7, "C09", "C09.R7", "C02.R11")
 
 
+_DTYPE_CANON = {
+    "int16": "i2", "i2": "i2", "<i2": "i2", "short": "i2",
+    "int32": "i4", "i4": "i4", "<i4": "i4", "intc": "i4",
+    "int64": "i8", "i8": "i8", "<i8": "i8", "int": "i8", "int_": "i8", "intp": "i8",
+    "uint16": "u2", "u2": "u2", "uint8": "u1", "u1": "u1", "ubyte": "u1",
+    "byte": "i1", "int8": "i1", "i1": "i1", "b": "i1",
+    "float64": "f8", "f8": "f8", "<f8": "f8", "float": "f8", "double": "f8", "float_": "f8",
+    "float32": "f4", "f4": "f4", "<f4": "f4", "single": "f4",
+}
+
+
+def _dtype_code(prog, fi, e):
+    """canonical code ('i2', 'f8', …) of a dtype expression: np.int16 / "i2" / a module constant holding one; None if
+    it cannot be told"""
+    from .common import const_value
+
+    if e is None:
+        return None
+    if isinstance(e, ast.Constant) and isinstance(e.value, str):
+        return _DTYPE_CANON.get(e.value)
+    d = dotted(e)
+    if d and d.split(".")[0] in ("np", "numpy") and len(d.split(".")) == 2:
+        return _DTYPE_CANON.get(d.split(".")[1])
+    if isinstance(e, ast.Name) and e.id in ("int", "float"):
+        return _DTYPE_CANON[e.id]
+    try:
+        v = const_value(prog, fi, e)
+    except Exception:  # noqa: BLE001
+        v = None
+    if isinstance(v, ast.Constant) and isinstance(v.value, str):
+        return _DTYPE_CANON.get(v.value)
+    if isinstance(v, str):
+        return _DTYPE_CANON.get(v)
+    return None
+
+
+def rule_r13(prog, res) -> None:
+    """raw binary files are read with the element type they were written with.  `ndarray.tofile` stores no type, so
+    the reader's `np.fromfile(…, dtype=…)` must name it: (1) the patch-id list of a cache — the dtype of the array the
+    writer hands to tofile (followed back through sort / the constructing call) and the dtype the reader names fold to
+    the same code; a reader without dtype reads float64 and returns garbage ids without any error; (2) the patch data
+    file, whose payload is re-interpreted with `.view(<record type>)` after a one-byte header, is read as single bytes"""
+    from .common import expand_locals
+
+    cat = prog.func("read_patch_ids").module
+    readers = [(f, c) for f in cat.all_funcs for c in calls_in(f) if (dotted(c.func) or "").split(".")[-1] == "fromfile"]
+    writers = [(f, c) for f in cat.all_funcs for c in calls_in(f) if isinstance(c.func, ast.Attribute) and c.func.attr == "tofile"]
+    if len(readers) != 1 or len(writers) != 1:
+        raise AnalysisError(f"C02.R13: expected one fromfile and one tofile call in {cat.name} (the patch-id list), found {len(readers)} / {len(writers)}")
+    (rf, rc), (wf, wc) = readers[0], writers[0]
+    res.touch(rf)
+    res.touch(wf)
+    rd = kwarg(rc, "dtype") or (rc.args[1] if len(rc.args) > 1 else None)
+    rcode = _dtype_code(prog, rf, rd) if rd is not None else "f8"
+    # the written array: receiver of tofile, followed through order-only wrappers to the call that fixes its type
+    arr = expand_locals(wf.node, wc.func.value, set())
+    wcode = None
+    for y in ast.walk(arr):
+        if isinstance(y, ast.Call):
+            fn = (dotted(y.func) or "").split(".")[-1] if dotted(y.func) else (y.func.attr if isinstance(y.func, ast.Attribute) else "")
+            dt = kwarg(y, "dtype") or (y.args[0] if fn == "astype" and y.args else None)
+            if dt is not None and fn in ("fromiter", "array", "asarray", "astype", "empty", "zeros", "full", "arange"):
+                wcode = _dtype_code(prog, wf, dt)
+                break
+    if wcode is None:
+        # the array is a parameter of a writing helper: its type is fixed at the call sites
+        from .common import argval
+
+        for q in [y.id for y in ast.walk(arr) if isinstance(y, ast.Name) and y.id in wf.param_names()]:
+            for g in prog.funcs:
+                for c in calls_in(g):
+                    if wf not in prog.resolve_call(g, c).funcs():
+                        continue
+                    a = argval(prog, g, c, q)
+                    if a is None:
+                        continue
+                    res.touch(g)
+                    for y in ast.walk(expand_locals(g.node, a, set())):
+                        if isinstance(y, ast.Call):
+                            fn = (dotted(y.func) or "").split(".")[-1] if dotted(y.func) else (y.func.attr if isinstance(y.func, ast.Attribute) else "")
+                            dt = kwarg(y, "dtype") or (y.args[0] if fn == "astype" and y.args else None)
+                            if dt is not None and fn in ("fromiter", "array", "asarray", "astype", "empty", "zeros", "full", "arange"):
+                                wcode = wcode or _dtype_code(prog, g, dt)
+    if rd is None:
+        res.violation("C02.R13", rf, rc, f"{rf.short} reads the patch-id list with np.fromfile without a dtype: the file holds {wcode or 'integer'} values, numpy reads them as float64 — the cache opens with garbage / the wrong number of patch ids and no error", key_extra="patch-ids-read-without-dtype")
+    elif rcode is None or wcode is None:
+        raise AnalysisError(f"C02.R13: cannot fold the element type of the patch-id list (written: {unparse(arr)[:60]} -> {wcode}; read: {unparse(rd)[:30]} -> {rcode})")
+    elif rcode != wcode:
+        res.violation("C02.R13", rf, rc, f"the patch-id list is written as {wcode} ({wf.short}) but read as {rcode} ({rf.short}): the ids of an intact cache are read back as other numbers", key_extra="patch-ids-dtype-mismatch")
+    else:
+        res.ok("C02.R13", res.site(rf, "patch-id list"), f"written as {wcode} in {wf.name}, read as {rcode}")
+    # (2) payload of a patch data file
+    n = 0
+    for f in prog.funcs:
+        if f.module.name != "yaw.catalog.patch":
+            continue
+        for c in calls_in(f):
+            if (dotted(c.func) or "").split(".")[-1] != "fromfile":
+                continue
+            tgt = [x for x in walk_no_nested(f.node) if isinstance(x, ast.Assign) and x.value is c and isinstance(x.targets[0], ast.Name)]
+            viewed = bool(tgt) and any(isinstance(y, ast.Call) and isinstance(y.func, ast.Attribute) and y.func.attr == "view" and isinstance(y.func.value, ast.Name) and y.func.value.id == tgt[0].targets[0].id for y in ast.walk(f.node))
+            viewed = viewed or any(isinstance(y, ast.Call) and isinstance(y.func, ast.Attribute) and y.func.attr == "view" and y.func.value is c for y in ast.walk(f.node))
+            if not viewed:
+                continue
+            n += 1
+            res.touch(f)
+            d = kwarg(c, "dtype") or (c.args[1] if len(c.args) > 1 else None)
+            code = _dtype_code(prog, f, d) if d is not None else "f8"
+            if code in ("i1", "u1"):
+                res.ok("C02.R13", res.site(f, "payload bytes"), "the payload is read as single bytes before it is re-interpreted as records")
+            elif code is None:
+                raise AnalysisError(f"C02.R13: cannot fold the dtype `{unparse(d)[:30]}` of the payload read in {f.short}")
+            else:
+                res.violation("C02.R13", f, c, f"{f.short} reads the payload of a patch file as {code} and re-interprets it with .view(<record type>): only a payload whose size is a multiple of {code[1:]} bytes can be read at all, records with an odd number of columns fail or are re-grouped", key_extra="payload-not-bytes")
+    if n < 1:
+        raise AnalysisError("C02.R13: the payload read (np.fromfile … .view) of the patch data file was not found")
+
+
 RULES = [
     ("C02.R1", rule_r1, QUICK),
     ("C02.R2", rule_r2, QUICK),
@@ -1061,4 +1179,5 @@ RULES = [
     ("C02.R9", rule_r9, QUICK),
     ("C02.R10", rule_r10, QUICK),
     ("C02.R11", rule_r11, QUICK),
+    ("C02.R13", rule_r13, QUICK),
 ]
